@@ -16,6 +16,7 @@ mod fam_ffi;
 mod fam_format;
 mod fam_partial;
 mod fam_pset;
+mod fam_robust;
 mod fam_slice;
 mod fam_store;
 mod fam_symcc;
@@ -78,6 +79,7 @@ fn family(name: &str) -> Option<(Runner, Driver)> {
         "format" => (fam_format::run, fam_format::drive),
         "ffi" => (fam_ffi::run, fam_ffi::drive),
         "symcc" => (fam_symcc::run, fam_symcc::drive),
+        "robust" => (fam_robust::run, fam_robust::drive),
         _ => return None,
     })
 }
